@@ -84,6 +84,8 @@ struct Mod {
     /// parallel to customs.ids: is the section a RawCustomSection?
     custom_raw: Vec<bool>,
     custom_payload: Vec<Vec<u8>>,
+    /// per import slot: the function it imports (None: a memory import)
+    import_func: Vec<Option<walrus::FunctionId>>,
     counter: u32,
 }
 
@@ -136,6 +138,7 @@ impl Mod {
             customs: Track::default(),
             custom_raw: Vec::new(),
             custom_payload: Vec::new(),
+            import_func: Vec::new(),
             counter: 0,
         }
     }
@@ -393,6 +396,7 @@ fn add_op(md: &mut Mod, coll: CollKind, arg: u32, counters: &mut Vec<(String, u6
                 if let Err(e) = md.imports.add(imp, format!("env.{}", impname)) {
                     return fail("id_never_reused", format!("imports: {}", e));
                 }
+                md.import_func.push(Some(f));
             } else {
                 let mut b = FunctionBuilder::new(&mut md.m.types, p, r);
                 b.name(name.clone());
@@ -441,6 +445,7 @@ fn add_op(md: &mut Mod, coll: CollKind, arg: u32, counters: &mut Vec<(String, u6
                 if let Err(e) = md.imports.add(imp, format!("env.gimp{}", k)) {
                     return fail("id_never_reused", format!("imports: {}", e));
                 }
+                md.import_func.push(None);
                 g
             } else {
                 md.m.globals.add_local(ValType::I64, arg % 2 == 0, false, ConstExpr::Value(walrus::ir::Value::I64(k as i64)))
@@ -497,10 +502,13 @@ fn add_op(md: &mut Mod, coll: CollKind, arg: u32, counters: &mut Vec<(String, u6
             }
         }
         CollKind::Imports => {
-            let (mem, imp) = md.m.add_import_memory("env", &format!("mimp{}", k), false, false, k as u64, None, None);
-            if let Err(e) = md.imports.add(imp, format!("env.mimp{}", k)) {
+            // some memory imports share their (module, name) pair with function imports (legal wasm)
+            let impname = if arg % 4 == 0 { "dupimp".to_string() } else { format!("mimp{}", k) };
+            let (mem, imp) = md.m.add_import_memory("env", &impname, false, false, k as u64, None, None);
+            if let Err(e) = md.imports.add(imp, format!("env.{}", impname)) {
                 return fail("id_never_reused", format!("imports: {}", e));
             }
+            md.import_func.push(None);
             if let Err(e) = md.memories.add(mem, format!("{}", k)) {
                 return fail("id_never_reused", format!("memories: {}", e));
             }
@@ -709,6 +717,21 @@ fn find_op(md: &mut Mod, coll: CollKind, arg: u32, counters: &mut Vec<(String, u
                 return fail("finder_agrees_with_model", format!("imports.find({:?},{:?}) = {:?}, the model says {:?}", module, name, got.map(|i| i.index()), want.map(|i| i.index())));
             }
             bump(counters, if got.is_some() { "find_hit:imports" } else { "find_miss_after_delete:imports" });
+            // get_func: the first live FUNCTION import of that pair, whatever other kinds share the pair
+            let want_f = (0..md.imports.fp.len()).find(|j| md.imports.alive[*j] && md.imports.fp[*j] == md.imports.fp[k] && md.import_func[*j].is_some()).and_then(|j| md.import_func[j]);
+            let got_f = md.m.imports.get_func(&module, &name).ok();
+            if want_f != got_f {
+                return fail("finder_agrees_with_model", format!("imports.get_func({:?},{:?}) = {:?}, the model's first live function import of that pair is {:?}", module, name, got_f.map(|i| i.index()), want_f.map(|i| i.index())));
+            }
+            // get_imported_func: the import entry of a function, while that entry is live
+            if let Some(fid) = md.import_func[k] {
+                let want_i = (0..md.imports.fp.len()).find(|j| md.imports.alive[*j] && md.import_func[*j] == Some(fid)).map(|j| md.imports.ids[j]);
+                let got_i = md.m.imports.get_imported_func(fid).map(|i| i.id());
+                if want_i != got_i {
+                    return fail("finder_agrees_with_model", format!("imports.get_imported_func(function #{}) = {:?}, the model says {:?}", fid.index(), got_i.map(|i| i.index()), want_i.map(|i| i.index())));
+                }
+            }
+            bump(counters, "find_func:imports");
         }
         CollKind::Customs => {
             if md.customs.fp.is_empty() {
